@@ -44,7 +44,7 @@ func randCase(rnd *rand.Rand, s string) string {
 	return string(b)
 }
 
-var c03Numbers = []string{"0", "1", "2", "60", "3600", "2147483648", "9223372036854775807", "9223372036854775808", "99999999999999999999"}
+var c03Numbers = []string{"0", "1", "2", "60", "3600", "2147483648", "9223372036854775807", "9223372036854775808", "99999999999999999999", "-1", "-60", "-9223372036854775809", "-99999999999999999999"}
 
 // c03Reference the independent token-level predicate
 func c03Reference(method string, header [][2]string) (verdict, reason string) {
@@ -98,6 +98,10 @@ func c03Reference(method string, header [][2]string) (verdict, reason string) {
 			if x != list[0] {
 				return true, 0, true
 			}
+		}
+		if x := list[0]; len(x) > 1 && x[0] == '-' && strings.Trim(x[1:], "0123456789") == "" {
+			// a negative integer of any length is a number, and not a positive lifetime
+			return true, -1, false
 		}
 		f, err := strconv.ParseFloat(list[0], 64)
 		if err != nil || f < 0 || strings.ContainsAny(list[0], ".eE+-") {
@@ -385,7 +389,7 @@ func c03Run(r *hx.Run, w *W, c c03Case) {
 }
 
 func c03(r *hx.Run) {
-	r.Rule = "one fresh URL per case: method from {GET,HEAD,POST,PUT,DELETE,PATCH,OPTIONS}, status from 12 codes, Cache-Control built from lifetime directives (values 0..20 digits), blocking directives, harmless/extension directives (incl. names that contain a directive name), random order, casing, separators, 1-3 header lines, quoted arguments, duplicates; Set-Cookie none/one/empty-then-real/two; Age valid/invalid; Expires/Last-Modified; an upstream X-Status header of its own. The request (or a burst of 3) is followed by an identical one; an independent token-level predicate says whether the first response was shareable. Verdict only on stored => shareable, label truthfulness and exactly-once; the converse is counted. Non-trivial/distinct = distinct (class, header set) that was unshareable, or shareable and in fact stored."
+	r.Rule = "one fresh URL per case: method from {GET,HEAD,POST,PUT,DELETE,PATCH,OPTIONS}, status from 12 codes, Cache-Control built from lifetime directives (values 0..20 digits, negative ones up to 20 digits), blocking directives, harmless/extension directives (incl. names that contain a directive name), random order, casing, separators, 1-3 header lines, quoted arguments, duplicates; Set-Cookie none/one/empty-then-real/two; Age valid/invalid; Expires/Last-Modified; an upstream X-Status header of its own. The request (or a burst of 3) is followed by an identical one; an independent token-level predicate says whether the first response was shareable. Verdict only on stored => shareable, label truthfulness and exactly-once; the converse is counted. Non-trivial/distinct = distinct (class, header set) that was unshareable, or shareable and in fact stored."
 	r.Assume = []string{"virtual clock (static) so that storing is observable on the second request", "duplicate lifetime directives with different values, unparsable numbers and invalid Age are left unjudged (ambiguous)"}
 	rnd := rand.New(rand.NewSource(r.Seed))
 	port := hx.FreePorts(1)[0]
